@@ -45,6 +45,68 @@ Fixpoint c14_walk (acts : list act) (observed : list obs) (opened gone : list na
   | _, _ => []
   end.
 
+(* ---- reason 7: releasing the PEER's state. A stream whose open succeeded and whose own context ended (ACancel / AExpire:
+   cancellation or the caller's deadline) before any final envelope (status, trailer, reset) for its id was even delivered
+   has nothing from the server that ends the RPC there: the client must tell it - exactly one RST_STREAM with the stream's
+   id on the wire by the next quiescent point (none: the server keeps the handler and its registration until its own timer,
+   if it has one, or the end of the connection; two: the second may hit a reused id). Judged only in scenarios without a
+   read failure and without write faults (there the reset may legitimately be lost), for streams opened without a park
+   whose id was seen on the wire at the step of the open. ---- *)
+Fixpoint lookupZ (c : nat) (m : list (nat * Z)) : option Z :=
+  match m with [] => None | (c', i) :: t => if Nat.eqb c c' then Some i else lookupZ c t end.
+Definition first_open_write (evs : list cev) : option Z :=
+  match flat_map (fun e => match e with EvWrite w => if erst w then [] else [eid w] | _ => [] end) evs with
+  | i :: _ => Some i
+  | [] => None
+  end.
+Definition finalish (e : env) : bool :=
+  match estatus e, etrl e with None, None => erst e | _, _ => true end.
+
+Fixpoint rst_walk (acts : list act) (observed : list obs) (n : nat) (streams judged : list (nat * Z)) (finals : list Z)
+  : list (nat * Z) :=
+  match acts, observed with
+  | a :: acts', o :: obs' =>
+      match a with
+      | ANewStream false =>
+          let streams' := match first_open_write (o_events o) with
+                          | Some i => if memn n (opened_in (o_events o)) then (n, i) :: streams else streams
+                          | None => streams
+                          end in
+          rst_walk acts' obs' (S n) streams' judged finals
+      | ANewStream true | ANewUnary _ _ => rst_walk acts' obs' (S n) streams judged finals
+      | ADeliver e => rst_walk acts' obs' n streams judged (if finalish e then eid e :: finals else finals)
+      | ACancel c | AExpire c =>
+          let judged' := match lookupZ c streams with
+                         | Some i => if existsb (Z.eqb i) finals || memn c (map fst judged) then judged else (c, i) :: judged
+                         | None => judged
+                         end in
+          rst_walk acts' obs' n streams judged' finals
+      | _ => rst_walk acts' obs' n streams judged finals
+      end
+  | _, _ => judged
+  end.
+
+Definition rst_count (i : Z) (observed : list obs) : nat :=
+  length (filter (fun e => match e with EvWrite w => erst w && (eid w =? i) | _ => false end) (flat_map o_events observed)).
+Definition no_faults (acts : list act) : bool :=
+  forallb (fun a => match a with AFailRead | ASetWriteFail true => false | _ => true end) acts.
+Definition rst_bad (acts : list act) (observed : list obs) : list nat :=
+  if no_faults acts && (length acts =? length observed)%nat then
+    if forallb (fun ci => Nat.eqb (rst_count (snd ci) observed) 1) (rst_walk acts observed 0 [] [] []) then [] else [7%nat]
+  else [].
+
+(* the predicate can fail, and holds of the behaviour it asks for *)
+Definition ex_open := mkObs [EvWrite (mkEnv 1 (Some (MdOk 0)) None None None false); EvOpenRet 0 None] (Some 1) [] 1 1.
+Definition ex_rst := mkObs [EvWrite (mkEnv 1 (Some (MdOk 0)) None None None true)] (Some 0) [] 0 1.
+Definition ex_quiet := mkObs [] (Some 0) [] 0 1.
+Example rst_ok : rst_bad [ANewStream false; AExpire 0] [ex_open; ex_rst] = []. Proof. reflexivity. Qed.
+Example rst_missing : rst_bad [ANewStream false; AExpire 0] [ex_open; ex_quiet] = [7%nat]. Proof. reflexivity. Qed.
+Example rst_twice : rst_bad [ANewStream false; ACancel 0; AExpire 0] [ex_open; ex_rst; ex_rst] = [7%nat]. Proof. reflexivity. Qed.
+(* not judged: the server's final envelope was delivered before the context ended; a read failure in the scenario *)
+Example rst_after_final : rst_bad [ANewStream false; ADeliver (mkEnv 1 (Some (MdOk 0)) (Some (mkSt 0 0)) None (Some (MdOk 0)) false); ACancel 0]
+                                  [ex_open; ex_quiet; ex_quiet] = []. Proof. reflexivity. Qed.
+Example rst_faulty : rst_bad [ANewStream false; AFailRead; AExpire 0] [ex_open; ex_quiet; ex_quiet] = []. Proof. reflexivity. Qed.
+
 Definition long_bad (smp : Z * Z * Z * Z * Z) : list nat :=
   match smp with
   | (reg, loops, inflight, streams, srv) =>
@@ -58,7 +120,7 @@ Definition long_bad (smp : Z * Z * Z * Z * Z) : list nat :=
 
 Definition spec_c14 (c : c14case) : list nat :=
   match c with
-  | C14Step cc => dedup Nat.eqb (c14_walk (act_list cc) (obs_list cc) [] [])
+  | C14Step cc => dedup Nat.eqb (c14_walk (act_list cc) (obs_list cc) [] [] ++ rst_bad (act_list cc) (obs_list cc))
   | C14Long samples => dedup Nat.eqb (flat_map long_bad samples)
   | C14Srv _ _ => []
   end.
